@@ -342,6 +342,10 @@ WIRE_PLANS = {
             'stall-chatty': (2, 10), 'idle': (2, 8)},
     # C02, order clause: a recipient catching up on a backlog still gets one sender's relays in order, each once
     'C02': {'order': (2, 12)},
+    # C07: a session, and its frame worker, ends with its last member however quickly that happens
+    'C07': {'churn': (4, 40)},
+    # C10: concurrent registration of the same component type names
+    'C10': {'types': (5, 30)},
 }
 
 
